@@ -1,7 +1,7 @@
 (* The Gallina vocabulary the GoLite translator (harness/cmd/gvgen ble) targets. *)
 From Coq Require Export QArith.
 From GV Require Export Base.Bytes Base.LE Vedirect.Frame.
-From GV Require Export Tables.ObsTypes Tables.Lookup Gen.Obs.
+From GV Require Export Tables.ObsTypes Tables.Lookup Gen.ObsEnum.
 Open Scope Z_scope.
 
 Inductive M (A : Type) := MOk (a : A) | MFault.
